@@ -90,11 +90,15 @@ def judge_direct(flt: Any, config: Any, flavour: str, keys: np.ndarray, failed: 
     j = Judgement()
     objectives, constraints = make_inputs(flavour, keys, failed)
     expected = ref.sort_window_weights(keys, failed, config.realizations.weights, first, last)
+    before = (objectives.tobytes(), None if constraints is None else constraints.tobytes())
     try:
         weights = flt.get_realization_weights(objectives, constraints)
         raised = None
     except Exception as exc:  # noqa: BLE001
         weights, raised = None, exc
+    # the values a filter ranks are shared with the other filters and with the reported results: it must not edit them
+    if before != (objectives.tobytes(), None if constraints is None else constraints.tobytes()):
+        j.fail(f"filter-modified-its-input:{flavour}", failed=failed)
     if not np.any(expected > 0):
         j.outcome = "empty-selection"
         if not (isinstance(raised, OptimizationAborted) and raised.exit_code == OptimizerExitCode.TOO_FEW_REALIZATIONS):
